@@ -2,6 +2,7 @@
 CONSTANTS
   MaxLen = 2
   ApiFilter = {}
+  TmoOnly = {}
   Design = "extracted"
   Emit = FALSE
 SPECIFICATION Spec
